@@ -9,6 +9,7 @@ import (
 
 var (
 	ErrPKCS5UnPadding = errors.New("PKCS5UnPadding error")
+	ErrCipherLength   = errors.New("cipher text is not a multiple of the block size")
 )
 
 func PKCS5Padding(cipherText []byte, blockSize int) []byte {
@@ -55,6 +56,9 @@ func AesDecrypt(encResult, key []byte) ([]byte, error) {
 		return nil, err
 	}
 	blockSize := block.BlockSize()
+	if len(encResult) == 0 || len(encResult)%blockSize != 0 {
+		return nil, ErrCipherLength
+	}
 	blockMode := cipher.NewCBCDecrypter(block, key[:blockSize])
 	origData := make([]byte, len(encResult))
 	blockMode.CryptBlocks(origData, encResult)
